@@ -331,15 +331,16 @@ func shrinkTableJSON(spec json.RawMessage) []json.RawMessage {
 func init() {
 	register(&Prop{
 		ID:       "C05",
-		Imports:  "From Tab Require Import Run.Glue Run.C05Run.",
-		CaseType: "c05session",
-		CaseFn:   "C05s_case",
-		ModelFn:  "C05s_model",
+		Imports:  "From Tab Require Import Run.Glue Run.C05Run Run.C05R6Run.",
+		CaseType: "c05x",
+		CaseFn:   "C05x_case",
+		ModelFn:  "C05x_model",
 		Rule: "tables built through the public API (AddHeaders / AddRowItems / NewRow+Add+AddRow / AppendNewRow+Add / AddSeparator); " +
 			"every shape with header in {none,0,1,2 cells} and up to 3 rows over {separator,0,1,2 cells} (texts from a quote/comma/CR/LF/NUL/0xFF alphabet), " +
 			"every single field over all strings of length <= 2 of a 7-byte alphabet in first/last/padded position, and random tables to 6x6 over all 256 byte values; " +
 			"records of 509 B .. 8 KiB (thorough: to 70 KB) before, between and after small ones, fields of 15..257 quote characters (alone and after a longer plain field), 700 small records, tables of 9..47 columns; a render-time callback that renders the same wrapper again (enrichSpec: Reenter); " +
 			"SESSIONS (one render after another, every render judged against the table as the spec says it stood then): histories over 2..4 tables (tabular.New / csv.New / a Table stating its own column count) of AddHeaders, AddRowItems, AddSeparator, a row taken by a second table and extended afterwards (one table then holds a row longer than its column count: its render is refused PART-WAY, after the records before it), tables widened until they render again, a failing writer in between, with renders through csv.Render, Wrap(t).Render, one kept wrapper's Render, csv.RenderTo into a fresh buffer, RenderTo into a plain writer and into one buffer the caller reuses; exhaustively: refusal before any record / after the header / after 1, 2, 3 records x 6 entry points for the refused render x 6 for the next render (of an unrelated table - every other time after a render into a failing writer - then of the same table once it is wide enough), and the same with a table stating a column count smaller than one of its rows over the 3 x 3 string-returning entry points; refused renders that have written 40 B .. 5 KB (thorough: 70 KB) before small and large successful ones; " +
+			"ROUND 6 (c05_r6.go): ITEMS OF EVERY GO KIND - rune, int, bool, float, nil, Stringers, errors, nested cells and 28 further dynamic types (every sized integer and float type, complex, named types, slices, arrays, maps, structs, pointers), exhaustively every integer-like type at every ASCII code point and 27 edge values as header and body cells, every other kind over the hostile alphabet, random sessions and tables over all kinds, the expected text computed on the spec side by the documented rule; STATE THAT IS NOT CONTENT - Column(n).Name, application properties on table / column / row / cell, AddError on table / row, on every object 0..ncols+1, before and after the rows, x header {none, 0..3 cells} x 6 entry points, and in random sessions; DESTINATIONS - RenderTo into an io.Writer with room for b more bytes whose failing Write takes part of the payload (n < len(p)) and returns an error of 17 classifications (plain, Temporary, Timeout, wrapped, errno, io / os / context / net errors) and which takes everything afterwards, also offering WriteString: every room 0..len(output)+1 x every classification, rooms inside fields of 600 B / 4 KB (thorough 70 KB), every render that reports success judged on what the destination holds; " +
 			"a case is non-trivial when the table has at least one column (rendering is attempted); distinct = distinct (views, outcomes)",
 		Exhaustive: "shapes (header x row-sequence up to length 3) and all 57 strings of length<=2 over 7 hostile bytes in 3 field positions; sessions: {no header, header} x {0,1,2 fitting rows before the over-long one} x 6 entry points of the refused render x 6 entry points of the following renders (row shared with a second table and extended), x 3 x 3 string-returning entry points (table stating its own column count)",
 		Gen: func(r *RNG, tier string) []json.RawMessage {
@@ -426,6 +427,21 @@ func init() {
 			}
 			// sessions come last: one render after another, over several tables
 			out = append(out, genC05Sessions(r, tier, csvText)...)
+			// round 6: items of every Go kind, state that is not content, destinations (c05_r6.go)
+			out = append(out, genC05R6Sessions(r, tier)...)
+			nk := 120
+			if tier == "thorough" {
+				nk = 3000
+			}
+			for i := 0; i < nk; i++ {
+				ts := randTable(r, 5, 5, tableItems, hows)
+				enrichSpec(r, &ts, tableItems)
+				add(ts)
+			}
+			for i := 0; i < nk; i++ {
+				add0 := randSession(r, csvAnyItem)
+				out = append(out, mustJSON(add0))
+			}
 			return out
 		},
 		Run: func(spec json.RawMessage) CaseOut {
@@ -439,7 +455,7 @@ func init() {
 			v := ts.SpecView() // what was put in; extractView(t) would be what the table now holds
 			vc := v.Coq(true)
 			return CaseOut{
-				Coq:        cqPair(cqList([]string{vc}), cqList([]string{cqPair(cqNat(0), o.Coq())})), // a session of one render
+				Coq:        cqPair(cqList([]string{vc}), cqList([]string{"(S0 " + cqPair(cqNat(0), o.Coq()) + ")"})), // a session of one render
 				Desc:       o,
 				Size:       ts.Size(),
 				Tags:       append(shapeTags(v), "outcome="+o.Kind),
